@@ -230,3 +230,28 @@ func BadClearsOther(m map[string]int, k string) {
 func OkSetsOne(m map[string]int, k string) {
 	m[k] = 1
 }
+
+// ---- captured slice variables that only grow by append ----
+
+func each(n int, f func(i int)) {
+	for i := 0; i < n; i++ {
+		f(i)
+	}
+}
+
+func OkSelfAppendCaptured(keep []int, n int) []int {
+	var acc []int
+	each(n, func(i int) {
+		acc = append(acc, i)
+	})
+	return acc
+}
+
+// the captured variable starts as the caller's slice: appending may write the caller's array
+func BadAppendCapturedCallerSlice(keep []int, n int) []int {
+	acc := keep[:0]
+	each(n, func(i int) {
+		acc = append(acc, i)
+	})
+	return acc
+}
